@@ -779,16 +779,11 @@ def _guarded_equal(cfg, nid, a, b):
     ca = const_value(a)
     if ca is None or not isinstance(b, ast.Name):
         return False
-    for t, lab in cfg.strict_guards(nid):
-        te = cfg.nodes[t].expr
-        if lab is not True:
-            continue
-        conj = te.values if isinstance(te, ast.BoolOp) and isinstance(te.op, ast.And) else [te]
-        for c in conj:
-            if isinstance(c, ast.Compare) and len(c.ops) == 1 and isinstance(c.ops[0], ast.Eq) \
-                    and isinstance(c.left, ast.Name) and c.left.id == b.id and \
-                    const_value(c.comparators[0], object()) == ca:
-                return True
+    for c, tx, truth in cfg.facts(nid):
+        if truth is True and isinstance(c, ast.Compare) and len(c.ops) == 1 and \
+                isinstance(c.ops[0], ast.Eq) and isinstance(c.left, ast.Name) and \
+                c.left.id == b.id and const_value(c.comparators[0], object()) == ca:
+            return True
     return False
 
 
@@ -1034,16 +1029,8 @@ def enumerate_paths_from(cfg, W, body):
 # ---------------------------------------------------------------------------
 
 def _under_not_explored(cfg, nid):
-    for t, lab in cfg.strict_guards(nid):
-        e = cfg.nodes[t].expr
-        txt = unparse(e).replace(' ', '')
-        if txt == 'notself.explored' and lab is True:
-            return True
-        if txt == 'self.explored' and lab is False:
-            return True
-        if txt == 'len(self.bounds)==0' and lab is True:
-            return True
-    return False
+    return cfg.has_fact(nid, 'self.explored', False) or \
+        cfg.has_fact(nid, 'len(self.bounds) == 0', True)
 
 
 def rule_T6(ctx, rid='T6'):
@@ -1197,7 +1184,8 @@ def rule_T8i(ctx, rid='T8'):
     ctx.ob(rid, 'Sampler.sample_shell:samples-requested-shell', ok, f.where(sc),
            'proposals are drawn from self.bounds[%s]' % (unparse(idx) if idx is not None else '?'))
     # the proposal counter
-    incs = [n for n in cfg.nodes if n.kind == 'stmt' and isinstance(n.ast, ast.AugAssign) and
+    from .exprs import aug_nodes
+    incs = [n for n in aug_nodes(cfg) if
             isinstance(n.ast.op, ast.Add) and isinstance(n.ast.target, ast.Name)]
     prop = [n for n in incs if ekey(cfg, n.id, n.ast.value) == req_key and
             n.ast.target.id != c_name]
@@ -1276,7 +1264,8 @@ def rule_T8ii(ctx, qualname, rid='T8'):
     f = prog.func(qualname)
     cfg = cfg_of(f)
     selfn = f.self_name
-    augs = [n for n in cfg.nodes if n.kind == 'stmt' and isinstance(n.ast, ast.AugAssign) and
+    from .exprs import aug_nodes
+    augs = [n for n in aug_nodes(cfg) if
             isinstance(n.ast.op, ast.Add) and root_attr(n.ast.target, selfn) and
             not root_attr(n.ast.target, selfn)[1]]
     ns = [n for n in augs if root_attr(n.ast.target, selfn)[0] == 'n_sample' and
